@@ -25,9 +25,9 @@ from vlib.lz import jax, jnp, lsl, tfd
 
 MODV = 1024
 ASSIGNABLE = ("value", "svar", "dvar")
-CACHING = ("calc", "wvar", "wdvar", "igcalc", "scalc")
+CACHING = ("calc", "wvar", "wdvar", "igcalc", "scalc", "unode", "pitvar")
 WITH_DIST = ("dvar", "wdvar")
-VAR_KINDS = ("svar", "dvar", "wvar", "wdvar")
+VAR_KINDS = ("svar", "dvar", "wvar", "wdvar", "pitvar")
 
 
 def spec_strategy(min_nodes=4, max_nodes=14, allow_seed=True, allow_groups=False, allow_unnamed=True):
@@ -38,7 +38,7 @@ def spec_strategy(min_nodes=4, max_nodes=14, allow_seed=True, allow_groups=False
         n = draw(st.integers(min_nodes, max_nodes))
         decls = []
         n_src = draw(st.integers(1, 3))
-        kinds_pool = ["calc", "calc", "calc", "tcalc", "tcalc", "tident", "wvar", "wdvar", "igcalc", "value", "svar", "dvar", "dvar"]
+        kinds_pool = ["calc", "calc", "calc", "tcalc", "tcalc", "tident", "wvar", "wdvar", "igcalc", "value", "svar", "dvar", "dvar", "unode", "pitvar"]
         if allow_seed:
             kinds_pool.append("scalc")
         for i in range(n):
@@ -51,14 +51,23 @@ def spec_strategy(min_nodes=4, max_nodes=14, allow_seed=True, allow_groups=False
             if kind == "dvar":
                 fan = draw(st.integers(0, 1))
             fan = min(fan, i)
-            if kind in ("calc", "tcalc", "wvar", "wdvar", "igcalc", "scalc", "tident") and i == 0:
+            if kind in ("calc", "tcalc", "wvar", "wdvar", "igcalc", "scalc", "tident", "unode") and i == 0:
                 kind, fan = "value", 0
+            if kind == "pitvar":
+                # probability integral transform of an earlier distributed variable (liesel's PIT helper: a caching node that is neither Calc nor Dist)
+                cands = [j for j, dj in enumerate(decls) if dj["kind"] in WITH_DIST]
+                if not cands:
+                    kind, fan = ("calc", min(1, i)) if i > 0 else ("value", 0)
+                else:
+                    fan = 0
             ins = []
             for j in range(fan):
                 # prefer recent nodes so that chains (cached -> transient -> cached) appear
                 ref = draw(st.one_of(st.integers(max(0, i - 3), i - 1), st.integers(0, i - 1)))
                 kw = draw(st.sampled_from([None, None, f"k{j}"]))
                 ins.append([ref, kw])
+            if kind == "pitvar":
+                ins = [[draw(st.sampled_from(cands)), None]]
             name = f"x{i}" if (not allow_unnamed or draw(st.integers(0, 5)) > 0) else ""
             if kind in VAR_KINDS and not name:
                 name = f"x{i}"
@@ -98,6 +107,21 @@ def loc_ref(d):
         return None
     pos = [r for r, kw in d["inputs"] if kw is None]
     return pos[0] if pos else d["inputs"][0][0]
+
+
+class UserNode(lsl.Node):
+    """a user-defined caching node that derives from Node directly (like liesel's own PITCalc)"""
+
+    def __init__(self, fn, *inputs, _name="", **kwinputs):
+        super().__init__(*inputs, _name=_name, **kwinputs)
+        self._fn = fn
+
+    def update(self):
+        args = [i.value for i in self.inputs]
+        kwargs = {k: v.value for k, v in self.kwinputs.items()}
+        self._value = self._fn(*args, **kwargs)
+        self._outdated = False
+        return self
 
 
 class Built:
@@ -165,6 +189,11 @@ class Built:
             return lsl.Calc(self._counted(i, fn), *pos, _name=d["name"], **kws)
         if k == "scalc":
             return lsl.Calc(self._counted(i, fn), *pos, _name=d["name"], _needs_seed=True, **kws)
+        if k == "unode":
+            return UserNode(self._counted(i, fn), *pos, _name=d["name"], **kws)
+        if k == "pitvar":
+            self.counts[i] = 0      # (PITCalc has no user function to count; listed so that the bookkeeping stays uniform)
+            return lsl.PIT(self.objs[d["inputs"][0][0]], name=d["name"])
         if k == "tcalc":
             return lsl.TransientCalc(fn, *pos, _name=d["name"], **kws)
         if k == "tident":
@@ -231,8 +260,14 @@ class Built:
                 continue
             if dj["kind"] == "scalc":
                 out.add(f"seed:{j}")
+            if dj["kind"] == "pitvar":
+                out |= self.pit_ancestors(j)       # a PIT value depends on the variable AND on the inputs of its distribution
+                continue
             stack += [r for r, _ in dj["inputs"]]
         return out
+
+    def pit_ancestors(self, i):
+        return self.dist_ancestors(self.decls[i]["inputs"][0][0])
 
     def dist_ancestors(self, i):
         d = self.decls[i]
@@ -258,6 +293,11 @@ class Built:
             out = self.value_node(i, model).value
         elif d["kind"] == "tident":
             out = self.naive(d["inputs"][0][0], model, memo)
+        elif d["kind"] == "pitvar":
+            j = d["inputs"][0][0]
+            dj = self.decls[j]
+            loc = self.naive(loc_ref(dj), model, memo) if dj["inputs"] else 1.0
+            out = tfd.Normal(loc=loc, scale=2.0).cdf(self.naive(j, model, memo))
         else:
             pos = [self.naive(r, model, memo) for r, kw in d["inputs"] if kw is None]
             kws = {kw: self.naive(r, model, memo) for r, kw in d["inputs"] if kw is not None}
